@@ -77,7 +77,7 @@ InitEvents2 ==
 InitEvents == UNCHANGED <<dz, kz>> /\ InitEvents2
 InitSilent ==
   Sil /\ (\/ ContRLPush \/ ContSLTake \/ ContSendDone \/ ContSendFail
-          \/ (ContRecvFail /\ spc # "x_started")
+          \/ (ContRecvFail /\ spc # "x_started") \/ ContSyncFail
           \/ ContPreforkErr \/ ContFork \/ ContStartSync
           \/ InitKilled)
 \* init logs an event just after the operation; when it is killed (Destroy, killinit) the last events
